@@ -92,6 +92,7 @@ LawV(e) ==
   IF ~W("LAW") THEN {}
   ELSE IF e.pre = "roleconsistent" /\ ~RoleConsistent(PsOf(e.ins)) THEN {}
   ELSE Clause(\E i, j \in DOMAIN e.results : i < j /\ ~SameBy(e.results[i], e.results[j], e.cmp), e.law)
+       \cup Clause(~e.side, e.law \o "_Side")         \* a logged side condition of the law (e.g. "a DeprecationWarning was emitted")
 
 Verdict(e) ==
   IF e.op = "law" THEN LawV(e)
